@@ -22,9 +22,11 @@ var (
 )
 
 func vhReset() {
+	vreg.Mu.Lock()
 	vhVersions = map[string]*version{}
 	vhTokens = map[*version]string{}
 	vhNextTok = 0
+	vreg.Mu.Unlock()
 	vreg.Reset()
 }
 
@@ -65,6 +67,8 @@ func vhSameContent(a, b *version) bool {
 // the version; it is a function of the version's content (a version whose fields changed
 // since it was last serialised gets new bytes, hence a new id).
 func (v *version) MarshalJSON() ([]byte, error) {
+	vreg.Mu.Lock()
+	defer vreg.Mu.Unlock()
 	tok, ok := vhTokens[v]
 	if ok && !vhSameContent(vhVersions[tok], v) {
 		ok = false
@@ -97,7 +101,9 @@ func (v *version) MarshalJSON() ([]byte, error) {
 
 // UnmarshalJSON (M-PACK read side).
 func (v *version) UnmarshalJSON(data []byte) error {
+	vreg.Mu.Lock()
 	src, ok := vhVersions[string(data)]
+	vreg.Mu.Unlock()
 	if !ok {
 		return fmt.Errorf("vh: undecodable identity version")
 	}
